@@ -40,8 +40,12 @@ def run(tier):
         tpls = [[n, G.src(n, v["g"][n])] for n in names]
         perms = list(itertools.permutations(tpls))
         if len(perms) > 3:
-            perms = [perms[0], perms[-1]] + rnd.sample(perms[1:-1], 1 if tier == "quick" else 2)
+            perms = [perms[0]] + rnd.sample(perms[1:-1], 1 if tier == "quick" else 2) + [perms[-1]]
+        if tier == "quick" and len(perms) > 2:
+            perms = [perms[0], perms[-1]]         # (a third order goes through add_template_files below)
         variants = [[{"op": "add", "tpls": list(p)}] for p in perms]
+        allp = list(itertools.permutations(tpls))
+        variants.append([{"op": "add", "tpls": list(allp[len(allp) // 2]), "via": "files"}])          # a batch through add_template_files
         if v["ok"] and len(tpls) > 1:
             byname = dict(tpls)
             order, cur = [], [n for n in names if not v["g"][n]["ext"]][0]
@@ -97,7 +101,7 @@ def run(tier):
         for n in names:
             e = v["r"][n]
             lin = {x["b"]: x["from"] for x in st[n]["lineage"]}
-            want = {b: e["lin"][b] for b in ("a", "b") if e["lin"][b]}
+            want = {b: e["lin"][b] for b in ("a", "b", "c") if e["lin"].get(b)}
             if lin != want:
                 C.violation(dict(key, kind="lineage", tpl=n), "chain %s: lineage of %s is %s, specification %s" % (key["chain"], n, lin, want), {"job": job})
             check_text(C, key, job, n, "render", rr[k], e["text"])
